@@ -176,6 +176,7 @@ func runEffect(c *core.Ctx, keepEntry func(*ssa.Function) bool) {
 	}
 	// freshness
 	var fresh func(v ssa.Value, depth int) bool
+	freshBusy := map[*ssa.Phi]bool{}
 	fresh = func(v ssa.Value, depth int) bool {
 		if depth > 6 {
 			return false
@@ -188,6 +189,13 @@ func runEffect(c *core.Ctx, keepEntry func(*ssa.Function) bool) {
 		case *ssa.Slice:
 			return fresh(x.X, depth+1)
 		case *ssa.Phi:
+			// a loop phi (out := fresh[:0]; for … { out = append(out, e) }): the cycle through the append is decided
+			// by the other edges (coinductive: a value being decided counts as fresh on the way back to itself)
+			if freshBusy[x] {
+				return true
+			}
+			freshBusy[x] = true
+			defer delete(freshBusy, x)
 			for _, e := range x.Edges {
 				if e != v && !fresh(e, depth+1) {
 					return false
